@@ -2,6 +2,7 @@ package main
 
 import (
 	"fmt"
+	"go/token"
 	"go/types"
 	"regexp"
 	"sort"
@@ -236,6 +237,10 @@ func ruleAlloc(c *Ctx, prefix string, want map[string]bool) {
 
 func ruleAllocLock(c *Ctx, prefix string, ai *allocImpl) {
 	rule := prefix + "ALLOC.LOCK"
+	// stores into the allocator's own fields, seen during the exploration of its methods
+	// with the mutex held exclusively in every abstract state
+	lockedStore := map[*ssa.Store]bool{}
+	unlockedStore := map[*ssa.Store]bool{}
 	for _, m := range ai.Methods {
 		if inlinedEverywhere(c, m) {
 			continue // explored inline from its callers, with the callers' locks
@@ -247,6 +252,16 @@ func ruleAllocLock(c *Ctx, prefix string, ai *allocImpl) {
 		}
 		sites := map[ssa.Instruction]*res{}
 		ex.Hooks.Instr = func(st *State, in ssa.Instruction) {
+			if sto, ok := in.(*ssa.Store); ok {
+				if fa, ok := sto.Addr.(*ssa.FieldAddr); ok && ex.Canon(st, fa.X).S == "$0" {
+					if st.Holds("$0."+ai.Mutex, 'W') {
+						lockedStore[sto] = true
+					} else {
+						unlockedStore[sto] = true
+					}
+				}
+				return
+			}
 			op, call := ai.bitmapOp(ex, st, in)
 			if op == "" {
 				return
@@ -260,6 +275,11 @@ func ruleAllocLock(c *Ctx, prefix string, ai *allocImpl) {
 			_ = call
 			if !st.Holds("$0."+ai.Mutex, 'W') {
 				r.bad = fmt.Sprintf("bitmap.%s executed without %s.%s held exclusively (abstract path %v)", op, ai.T.Obj().Name(), ai.Mutex, st.Trail())
+			}
+			if mutatingBitOps[op] && op != "Set" && op != "Clear" {
+				// the table has exactly one bit per block of the pool (SIZE/CAP): only single-bit
+				// updates keep its length and everybody else's bits
+				r.bad = fmt.Sprintf("bitmap.%s changes the table's length or several bits at once: after construction only Set and Clear of one proven index keep one bit per block", op)
 			}
 		}
 		ex.Run()
@@ -282,7 +302,27 @@ func ruleAllocLock(c *Ctx, prefix string, ai *allocImpl) {
 		}
 		// a method that touches the bitmap through an escaping alias is out of reach: flag loads of the field other than as a receiver
 	}
-	// geometry: fields of T are only written in constructors (on the fresh literal)
+	// geometry: the fields the index<->address conversions read, and the bitmap itself, are
+	// only written in constructors (on the fresh literal); any other field (a cursor, a
+	// counter) may change later, but only in a method of T with the mutex held exclusively
+	geom := map[string]bool{ai.Bitmap: true}
+	for _, k := range []string{"toIndex", "toPrefix", "toOffset", "toIP"} {
+		m := c.P.Anchor(k)
+		if m == nil {
+			continue
+		}
+		eachInstr(m, func(in ssa.Instruction) {
+			if fa, ok := in.(*ssa.FieldAddr); ok {
+				t := fa.X.Type()
+				if p, ok := t.Underlying().(*types.Pointer); ok {
+					t = p.Elem()
+				}
+				if f := fieldOf(fa.X.Type(), fa.Field); f != nil && types.Identical(t, ai.T) {
+					geom[f.Name()] = true
+				}
+			}
+		})
+	}
 	st := ai.T.Underlying().(*types.Struct)
 	for i := 0; i < st.NumFields(); i++ {
 		f := st.Field(i)
@@ -291,15 +331,26 @@ func ruleAllocLock(c *Ctx, prefix string, ai *allocImpl) {
 		}
 		stores := findStores(c.P, f, nil)
 		bad := ""
+		nLocked := 0
 		for _, s := range stores {
 			fa := s.Addr.(*ssa.FieldAddr)
-			if _, fresh := fa.X.(*ssa.Alloc); !fresh || s.Parent().Signature.Recv() != nil {
-				bad = fmt.Sprintf("field %s is written outside a constructor at %s", f.Name(), c.P.InstrPos(s))
+			if _, fresh := fa.X.(*ssa.Alloc); fresh && s.Parent().Signature.Recv() == nil {
+				continue
+			}
+			switch {
+			case geom[f.Name()]:
+				bad = fmt.Sprintf("field %s (pool geometry / the bitmap) is written outside a constructor at %s", f.Name(), c.P.InstrPos(s))
+			case unlockedStore[s] || !lockedStore[s]:
+				bad = fmt.Sprintf("field %s is written at %s without %s.%s held exclusively on every path (or outside the allocator's methods)", f.Name(), c.P.InstrPos(s), ai.T.Obj().Name(), ai.Mutex)
+			default:
+				nLocked++
 			}
 		}
 		key := fmt.Sprintf("%s field %s written only at construction", ai.Name, f.Name())
 		if bad != "" {
 			c.R.bad(rule, key, "-", "-", bad)
+		} else if nLocked > 0 {
+			c.R.ok(rule, key, "-", "-", fmt.Sprintf("%d store(s): on the fresh literal in a constructor, or (%d) in a method with the mutex held exclusively; not a geometry field", len(stores), nLocked))
 		} else {
 			c.R.ok(rule, key, "-", "-", fmt.Sprintf("%d store(s), all on the fresh literal in a constructor", len(stores)))
 		}
@@ -936,4 +987,365 @@ func ruleAllocIndexBounded(c *Ctx, rule string) {
 		}
 	}
 	c.R.Floor(rule, 2)
+}
+
+// ruleConvPair: the prefix allocator's index<->prefix conversions are the
+// library's inverse pair over the same base and unit: toIndex(ip) succeeds only
+// with Offset(ip, B, U) and toPrefix(i) is AddPrefixes(B, i, U) for the same
+// fields B, U of the allocator. A conversion computed in any other way is not
+// known to be the inverse of its sibling (two blocks may share an index).
+func ruleConvPair(c *Ctx, prefix string) {
+	rule := prefix + "CONV-PAIR"
+	toIdx, toPfx := c.P.Anchor("toIndex"), c.P.Anchor("toPrefix")
+	if toIdx == nil || toPfx == nil {
+		c.R.Fatalf("ANCHOR-UNRESOLVED: Allocator.toIndex/toPrefix")
+		return
+	}
+	pkgA := reQ(modPath + "/plugins/allocators")
+	conv := func(inner string) string { return `(?:conv<\w+>\()?` + inner + `\)?` }
+	reOff := regexp.MustCompile(`^` + conv(pkgA+`\.Offset\(\$1,(\$0\.[\w.]+),`+conv(`(\$0\.\w+)`)+`\)#0`) + `$`)
+	reAdd := regexp.MustCompile(`^` + pkgA + `\.AddPrefixes\((\$0\.[\w.]+),` + conv(`\$1`) + `,` + conv(`(\$0\.\w+)`) + `\)#0$`)
+	var base, unit [2]string
+	for i, fn := range []*ssa.Function{toIdx, toPfx} {
+		c.R.Functions[shortFn(fn)] = true
+		exits, exceeded := ExitsOf(c, fn)
+		key := shortFn(fn) + " result"
+		bad := ""
+		n := 0
+		for _, e := range exits {
+			if len(e.Canon) != 2 {
+				bad = "unexpected result arity"
+				break
+			}
+			if i == 0 && !e.isSuccessExit() {
+				continue
+			}
+			if i == 1 {
+				// toPrefix passes the library's (value, error) pair through: both results of one call
+				if nn, _ := e.Ex.NilState(e.St, e.Ret.Results[1]); nn == 1 && isNilConst(e.Results[0]) {
+					continue // an explicit failure return
+				}
+			}
+			s := stripAt(e.Canon[0])
+			var m []string
+			if i == 0 {
+				m = reOff.FindStringSubmatch(s)
+			} else {
+				m = reAdd.FindStringSubmatch(s)
+			}
+			if m == nil {
+				bad = fmt.Sprintf("returns %s, which is not the library conversion of its argument over the allocator's base and unit", shortName(s))
+				break
+			}
+			n++
+			if base[i] == "" {
+				base[i], unit[i] = m[1], m[2]
+			} else if base[i] != m[1] || unit[i] != m[2] {
+				bad = "different exits use different base/unit fields"
+			}
+		}
+		if exceeded {
+			c.R.unk(rule, key, c.P.Pos(fn.Pos()), shortFn(fn), "state budget exceeded")
+		} else if bad != "" {
+			c.R.bad(rule, key, c.P.Pos(fn.Pos()), shortFn(fn), bad)
+		} else if n == 0 {
+			c.R.bad(rule, key, c.P.Pos(fn.Pos()), shortFn(fn), "no successful return found")
+		} else {
+			c.R.ok(rule, key, c.P.Pos(fn.Pos()), shortFn(fn), fmt.Sprintf("%d successful exit(s), all the library conversion over (%s, %s)", n, base[i], unit[i]))
+		}
+	}
+	key := "toIndex/toPrefix same base and unit"
+	if base[0] != "" && base[1] != "" {
+		if base[0] == base[1] && unit[0] == unit[1] {
+			c.R.ok(rule, key, c.P.Pos(toIdx.Pos()), shortFn(toIdx), "both conversions use "+base[0]+" and "+unit[0])
+		} else {
+			c.R.bad(rule, key, c.P.Pos(toIdx.Pos()), shortFn(toIdx), fmt.Sprintf("toIndex measures from (%s, %s) but toPrefix builds from (%s, %s): the maps are not inverse", base[0], unit[0], base[1], unit[1]))
+		}
+	}
+}
+
+// mayLeaves: the values v may be a copy of, walking back through phis,
+// reslicing, conversions, local variables (and their fields) and the results
+// of same-package helpers. Flow-insensitive ("may").
+func mayLeaves(p *Program, v ssa.Value) []ssa.Value {
+	seen := map[ssa.Value]bool{}
+	var out []ssa.Value
+	var walk func(v ssa.Value, d int)
+	rets := func(f *ssa.Function, k int, d int) {
+		for _, b := range f.Blocks {
+			if ret, ok := b.Instrs[len(b.Instrs)-1].(*ssa.Return); ok && k < len(ret.Results) {
+				walk(ret.Results[k], d+1)
+			}
+		}
+	}
+	walk = func(v ssa.Value, d int) {
+		if v == nil || seen[v] || d > 30 {
+			return
+		}
+		seen[v] = true
+		switch x := v.(type) {
+		case *ssa.Phi:
+			for _, e := range x.Edges {
+				walk(e, d+1)
+			}
+			return
+		case *ssa.Slice:
+			walk(x.X, d+1)
+			return
+		case *ssa.Convert:
+			walk(x.X, d+1)
+			return
+		case *ssa.ChangeType:
+			walk(x.X, d+1)
+			return
+		case *ssa.Extract:
+			if call, ok := x.Tuple.(*ssa.Call); ok {
+				if f := call.Call.StaticCallee(); f != nil && FirstParty(f) && len(f.Blocks) > 0 {
+					rets(f, x.Index, d)
+					return
+				}
+			}
+		case *ssa.Call:
+			if f := x.Call.StaticCallee(); f != nil && FirstParty(f) && len(f.Blocks) > 0 && f.Signature.Results().Len() == 1 {
+				rets(f, 0, d)
+				return
+			}
+			// methods returning (a view of) their receiver
+			if f := x.Call.StaticCallee(); f != nil && !x.Call.IsInvoke() && len(x.Call.Args) > 0 {
+				switch f.String() {
+				case "(net.IP).To16", "(net.IP).To4":
+					walk(x.Call.Args[0], d+1) // To4/To16 return the receiver itself or a subslice of it
+					return
+				}
+			}
+		case *ssa.Parameter:
+			// context-insensitive: whatever any first-party caller passes
+			g := x.Parent()
+			idx := -1
+			for i, q := range g.Params {
+				if q == x {
+					idx = i
+				}
+			}
+			n := 0
+			for _, site := range p.CallersOf(g) {
+				cc := site.Common()
+				if cc.StaticCallee() == g && idx >= 0 && idx < len(cc.Args) && !isFixture(site.Parent()) {
+					n++
+					walk(cc.Args[idx], d+1)
+				}
+			}
+			if n > 0 {
+				return
+			}
+		case *ssa.UnOp:
+			if x.Op != token.MUL {
+				break
+			}
+			switch a := x.X.(type) {
+			case *ssa.Alloc:
+				n := 0
+				for _, r := range *a.Referrers() {
+					if s, ok := r.(*ssa.Store); ok && s.Addr == ssa.Value(a) {
+						n++
+						walk(s.Val, d+1)
+					}
+				}
+				if n > 0 {
+					return
+				}
+			case *ssa.FieldAddr:
+				if al, ok := a.X.(*ssa.Alloc); ok {
+					n := 0
+					for _, r := range *al.Referrers() {
+						if fa, ok := r.(*ssa.FieldAddr); ok && fa.Field == a.Field {
+							for _, r2 := range *fa.Referrers() {
+								if s, ok := r2.(*ssa.Store); ok && s.Addr == ssa.Value(fa) {
+									n++
+									walk(s.Val, d+1)
+								}
+							}
+						}
+					}
+					if n > 0 {
+						return
+					}
+				}
+			}
+		}
+		out = append(out, v)
+	}
+	walk(v, 0)
+	return out
+}
+
+// ruleGeomAlias: (a) no first-party code writes through a slice that may be
+// pool geometry (the fields the index<->address conversions read).
+// allocators.AddPrefixes returns its argument itself for index 0, so the
+// result of the index->prefix conversion may alias the stored base: writing
+// into it (element store, copy, in-place append, binary.Put*) moves the whole
+// pool, and every later index is computed from the wrong origin. (b) the
+// address Allocate returns never aliases allocator-owned storage that is
+// written through after construction (a scratch buffer reused between calls):
+// every earlier answer would change with the next allocation.
+func ruleGeomAlias(c *Ctx, prefix string) {
+	rule := prefix + "ALLOC.GEOM-ALIAS"
+	impls := findAllocImpls(c)
+	ownFields := map[*types.Var]*allocImpl{}
+	for _, ai := range impls {
+		st := ai.T.Underlying().(*types.Struct)
+		for i := 0; i < st.NumFields(); i++ {
+			if f := st.Field(i); f.Name() != ai.Mutex && f.Name() != ai.Bitmap {
+				ownFields[f] = ai
+			}
+		}
+	}
+	geom := map[string]bool{}
+	for _, k := range []string{"toIndex", "toPrefix", "toOffset", "toIP"} {
+		if m := c.P.Anchor(k); m != nil {
+			eachInstr(m, func(in ssa.Instruction) {
+				if fa, ok := in.(*ssa.FieldAddr); ok {
+					if f := fieldOf(fa.X.Type(), fa.Field); f != nil && ownFields[f] != nil {
+						geom[f.Name()] = true
+					}
+				}
+			})
+		}
+	}
+	// a field that only ever holds a buffer made by the allocator itself is working storage, not geometry
+	for f := range ownFields {
+		if !geom[f.Name()] {
+			continue
+		}
+		stores := findStores(c.P, f, nil)
+		onlyMade := len(stores) > 0
+		for _, st := range stores {
+			for _, l := range mayLeaves(c.P, st.Val) {
+				switch l.(type) {
+				case *ssa.MakeSlice, *ssa.Alloc: // make([]T, n) / make([]T, const) (a fresh array)
+				default:
+					onlyMade = false
+				}
+			}
+		}
+		if onlyMade {
+			delete(geom, f.Name())
+		}
+	}
+	// the allocator fields a slice may be (a view of)
+	fieldsOf := func(v ssa.Value) []*types.Var {
+		var out []*types.Var
+		for _, l := range mayLeaves(c.P, v) {
+			if x, ok := l.(*ssa.UnOp); ok {
+				for a := x.X; a != nil; {
+					fa, ok := a.(*ssa.FieldAddr)
+					if !ok {
+						break
+					}
+					if f := fieldOf(fa.X.Type(), fa.Field); f != nil && ownFields[f] != nil {
+						out = append(out, f)
+						break
+					}
+					a = fa.X
+				}
+			}
+		}
+		return out
+	}
+	written := map[*types.Var]string{} // allocator field -> a site that writes through it
+	n := 0
+	for _, fn := range c.P.SrcFuncs() {
+		if isFixture(fn) {
+			continue
+		}
+		for _, b := range fn.Blocks {
+			for _, in := range b.Instrs {
+				var dst ssa.Value
+				what := ""
+				switch x := in.(type) {
+				case *ssa.Store:
+					if ia, ok := x.Addr.(*ssa.IndexAddr); ok {
+						if _, isSlice := ia.X.Type().Underlying().(*types.Slice); isSlice {
+							dst, what = ia.X, "element store into"
+						}
+					}
+				case *ssa.Call:
+					if bi, ok := x.Call.Value.(*ssa.Builtin); ok && len(x.Call.Args) > 0 {
+						switch bi.Name() {
+						case "copy":
+							dst, what = x.Call.Args[0], "copy into"
+						case "append":
+							if sl, ok := x.Call.Args[0].(*ssa.Slice); ok {
+								dst, what = sl.X, "in-place append over" // append(s[:k], ...) overwrites s's tail
+							}
+						}
+					} else if f := x.Call.StaticCallee(); f != nil && fnPkgPath(f) == "encoding/binary" && strings.HasPrefix(f.Name(), "Put") {
+						for _, a := range x.Call.Args {
+							if isByteSlice(a.Type()) {
+								dst, what = a, "binary."+f.Name()+" into"
+							}
+						}
+					}
+				}
+				if dst == nil || !isByteSlice(dst.Type()) {
+					continue
+				}
+				n++
+				for _, f := range fieldsOf(dst) {
+					if _, ok := written[f]; !ok {
+						written[f] = c.P.InstrPos(in)
+					}
+					if geom[f.Name()] {
+						c.R.bad(rule, fmt.Sprintf("%s %s#%d", shortFn(fn), strings.Fields(what)[0], n), c.P.InstrPos(in), shortFn(fn), fmt.Sprintf("%s a slice that may be the allocator's field %s (allocators.AddPrefixes returns its argument itself for index 0): the pool base can be overwritten in place", what, f.Name()))
+					}
+				}
+			}
+		}
+	}
+	c.R.ok(rule, "writes through byte slices", "-", "-", fmt.Sprintf("%d first-party element store / copy / in-place append / binary.Put sites on byte slices examined", n))
+	// (b) what Allocate hands out
+	for _, ai := range impls {
+		key := shortFn(ai.Allocate) + " result storage"
+		bad := ""
+		for _, b := range ai.Allocate.Blocks {
+			ret, ok := b.Instrs[len(b.Instrs)-1].(*ssa.Return)
+			if !ok || len(ret.Results) == 0 {
+				continue
+			}
+			// the IPNet result: its IP field, wherever it was assigned
+			for _, l := range mayLeaves(c.P, ret.Results[0]) {
+				_ = l
+			}
+		}
+		// every store into an IP field of a net.IPNet local of Allocate, and every IPNet literal it returns
+		eachInstr(ai.Allocate, func(in ssa.Instruction) {
+			s, ok := in.(*ssa.Store)
+			if !ok || !isByteSlice(s.Val.Type()) {
+				return
+			}
+			fa, ok := s.Addr.(*ssa.FieldAddr)
+			if !ok || namedOf(fa.X.Type()) != "net.IPNet" {
+				return
+			}
+			for _, f := range fieldsOf(s.Val) {
+				if at, ok := written[f]; ok && ownFields[f] == ai {
+					bad = fmt.Sprintf("the address returned (%s) may be the allocator's own field %s, which is written through at %s: every earlier answer changes with a later call", c.P.InstrPos(in), f.Name(), at)
+				}
+			}
+		})
+		if bad != "" {
+			c.R.bad(rule, key, c.P.Pos(ai.Allocate.Pos()), shortFn(ai.Allocate), bad)
+		} else {
+			c.R.ok(rule, key, c.P.Pos(ai.Allocate.Pos()), shortFn(ai.Allocate), "the returned address never aliases allocator storage that is written after construction")
+		}
+	}
+}
+
+func isByteSlice(t types.Type) bool {
+	s, ok := t.Underlying().(*types.Slice)
+	if !ok {
+		return false
+	}
+	b, ok := s.Elem().Underlying().(*types.Basic)
+	return ok && b.Kind() == types.Uint8
 }
